@@ -110,6 +110,28 @@ def gen_cases(ctx, scale=1.0):
             c['refuse'] = [rng.choice(['reader', 'janitor'] + [f'hasher{i+1}' for i in range(threads)])]
             c['fault'] = 'refuse-' + ('vital' if c['refuse'][0] in ('hasher1', 'janitor') else 'other')
         cases.append(c)
+    # 2b. verification of a tree with many damaged small files (about one piece each), the callback asks to stop at
+    #     an early report: the error items behind the stop request must neither be raised (they belong to the callback,
+    #     the run returns False) nor keep the reader going
+    for _ in range(int(ctx.n(160, 4000) * scale)):
+        threads = rng.choice([1, 2, 3])
+        cap = 3 * threads
+        L = 2
+        nfiles = rng.choice([cap + 6, 2 * cap + 9, 4 * cap + 10])
+        sizes = [rng.choice([L, L, L, L + 1, 1, 2 * L]) for _ in range(nfiles)]
+        c = base(threads, 1, 'verify', L=L)
+        c['sizes'] = sizes
+        c['paths'] = layouts.paths_for(nfiles, rng, nested=False)
+        p_bad = rng.choice([0.3, 0.7, 1.0])
+        c['disk'] = [rng.choice(['missing', 'missing', s + 1] + ([s - 1] if s > 1 else [])) if rng.random() < p_bad else 'ok'
+                     for s in sizes]
+        if all(d == 'ok' for d in c['disk']):
+            c['disk'][rng.randrange(nfiles)] = 'missing'
+        k = rng.choice([1, 1, 2, 3, rng.randint(1, max(1, nfiles // 2))])
+        c['cb'] = {'table': {str(k): rng.choice(['cancel', 'cancel', 'cancel-first'])}}
+        c['interval'] = 0        # (the pipeline model asks the callback at every result: no interval gate in it)
+        c['fault'] = 'cb-cancel-among-damaged-files'
+        cases.append(c)
     # 3. a content file that cannot be read as recorded (its size changed after the torrent was made): the reader's
     #    generator yields an error item, which a hashing run must raise whatever the callback and the reporting interval
     for _ in range(int(ctx.n(150, 4000) * scale)):
@@ -166,6 +188,11 @@ def judge(ctx, c, case, obs, rep, c02reply, prop):
         if not ('raised' in res and res['raised'].get('kind') == 'cb'):
             problems.append(f'the callback raised but the caller got {res}')
             tags.append('result')
+    if c['mode'] == 'verify' and c.get('cb') is not None and cb_cancelled and not cb_raised and not obs['fault_fired'] \
+            and not c.get('refuse') and obs['outcome'] == 'done' and 'returned' not in res:
+        problems.append(f'the callback asked to stop (verification with a callback: errors belong to the callback) '
+                        f'but the caller got {res}')
+        tags.append('result')
     if obs['fault_fired'] and c.get('read_fault_kind') == 'oserror' and not cb_raised:
         if not ('raised' in res and res['raised'].get('kind') == 'read'):
             problems.append(f'a content file failed to read but the caller got {res} instead of the read error')
